@@ -31,7 +31,9 @@ type Case struct {
 	Method string   `json:"method"` // GET | HEAD
 	// headers: for the entry the response is meant for
 	Target     string `json:"target"`      // the entry whose required marker header the response carries ("" = none)
-	HeaderKind string `json:"header_kind"` // none | integer | array | string
+	HeaderKind string `json:"header_kind"` // none | integer | array | string | object
+	// HeaderExplode: the explode field of the declared header: "" (absent: false) | "true" | "false"
+	HeaderExplode string `json:"header_explode,omitempty"`
 	HeaderVal  string `json:"header_val"`  // JSON value of the extra declared header X-V (when present)
 	HeaderSent bool   `json:"header_sent"`
 	HeaderReq  bool   `json:"header_required"`
@@ -86,6 +88,8 @@ func headerSchema(kind string) M {
 		return M{"type": "array", "items": M{"type": "integer"}, "maxItems": 2.0}
 	case "string":
 		return M{"type": "string", "minLength": 2.0}
+	case "object":
+		return M{"type": "object", "properties": M{"limit": M{"type": "integer", "maximum": 10.0}, "left": M{"type": "integer"}}, "required": []any{"limit"}}
 	}
 	return nil
 }
@@ -101,6 +105,12 @@ func check(c Case) (o h.Outcome) {
 		hs := M{markerHeader(k): M{"required": true, "schema": M{"type": "string"}}}
 		if hsch := headerSchema(c.HeaderKind); hsch != nil {
 			hs["X-V"] = M{"required": c.HeaderReq, "schema": hsch}
+			switch c.HeaderExplode {
+			case "true":
+				hs["X-V"].(M)["explode"] = true
+			case "false":
+				hs["X-V"].(M)["explode"] = false
+			}
 		}
 		r := M{"description": "d", "headers": hs}
 		if schema != nil {
@@ -127,7 +137,7 @@ func check(c Case) (o h.Outcome) {
 	var hv any
 	if c.HeaderSent && c.HeaderKind != "none" {
 		hv = jv.Parse(c.HeaderVal)
-		text, _ := styleser.Header(false, hv)
+		text, _ := styleser.Header(c.HeaderExplode == "true", hv)
 		hdr.Set("X-V", text)
 	}
 	if c.CT != "" {
@@ -407,7 +417,8 @@ func gen(t *rapid.T) Case {
 	} else {
 		c.Target = rapid.SampledFrom(append([]string{""}, c.Keys...)).Draw(t, "target")
 	}
-	c.HeaderKind = rapid.SampledFrom([]string{"none", "integer", "array", "string"}).Draw(t, "hkind")
+	c.HeaderKind = rapid.SampledFrom([]string{"none", "integer", "array", "string", "object"}).Draw(t, "hkind")
+	c.HeaderExplode = rapid.SampledFrom([]string{"", "true", "false"}).Draw(t, "hexplode")
 	c.HeaderSent = rapid.IntRange(0, 3).Draw(t, "hsent") > 0
 	c.HeaderReq = rapid.Bool().Draw(t, "hreq")
 	switch c.HeaderKind {
@@ -422,6 +433,16 @@ func gen(t *rapid.T) Case {
 		c.HeaderVal = jv.Canon(arr)
 	case "string":
 		c.HeaderVal = jv.Canon(rapid.SampledFrom([]string{"ab", "abc", "x", "hello"}).Draw(t, "hstr"))
+	case "object":
+		obj := M{"limit": float64(rapid.SampledFrom([]int{1, 10, 11}).Draw(t, "hlimit"))}
+		if rapid.Bool().Draw(t, "hleft") {
+			obj["left"] = float64(rapid.IntRange(0, 9).Draw(t, "hleftv"))
+		}
+		if rapid.IntRange(0, 5).Draw(t, "hnolimit") == 0 {
+			delete(obj, "limit")
+			obj["left"] = 3.0
+		}
+		c.HeaderVal = jv.Canon(obj)
 	default:
 		c.HeaderVal = "null"
 	}
